@@ -4,6 +4,7 @@ import (
 	"fmt"
 	"strings"
 
+	"verifharness/asmsys"
 	"verifharness/vh"
 )
 
@@ -110,6 +111,8 @@ func genLife(g *vh.Gen) string {
 }
 
 func gen(g *vh.Gen) {
+	// the assembled system (server.FullAssembly + Services.Start), one child process per case
+	asmsys.Gen(g, "asm19")
 	// the orderings the model enumerates for one session in each protocol state
 	for _, st := range []string{"", "helo", "mail", "rcpt", "data", "body"} {
 		pre := "o0:S"
